@@ -184,7 +184,22 @@ var c16Unit = map[string]bool{"lset": true, "laddassign": true, "lappend": true,
 	"lextend": true, "lreverse": true, "lsort": true, "lclear": true, "ldel": true, "mset": true, "mdel": true,
 	"mupdate": true, "mclear": true, "maddassign": true, "sadd": true, "sremove": true, "sdel": true, "sclear": true, "bset": true}
 
-var c16ScriptOnly = map[string]bool{"lmap": true, "lmapacc": true}
+var c16ScriptOnly = map[string]bool{"lmap": true, "lmapacc": true, "sortedby": true, "lfilter": true, "leach": true, "leachacc": true}
+
+// argument positions that are symbols of the protocol (callback shapes, raising call number)
+// or a second handle, not values handed to the script as globals
+var c16SymbolArgs = map[string]map[int]bool{"lmap": {1: true}, "sortedby": {1: true, 2: true}, "lfilter": {1: true}}
+var c16HandleArg1 = map[string]bool{"lmapacc": true, "leachacc": true}
+
+// builtins / methods that build their result out of NEW nested lists (registered as handles
+// before the result itself, in order)
+var c16NestedNew = map[string]bool{"lchunk": true, "mitems": true}
+
+// operations whose container result must be a new object, independent of the operand
+var c16ProducesNew = map[string]bool{"lslice": true, "lcopy": true, "lconcat": true, "lsorted": true, "lreversed": true, "lkeys": true,
+	"lmap": true, "mcopy": true, "mkeys": true, "mvalues": true, "sunion": true, "sinter": true, "bclone": true,
+	"sortedby": true, "xsorted": true, "xreversed": true, "tolist": true, "toset": true, "keysof": true, "mitems": true,
+	"lfilter": true, "lchunk": true}
 
 var c16Builtins = func() map[string]any {
 	m := map[string]any{}
@@ -217,6 +232,19 @@ func (w *c16World) finish(name string, res object.Object, errMsg string) string 
 		for _, o := range w.objs {
 			if o == res {
 				return "v:" + c16Render(res, 0)
+			}
+		}
+		if l, ok := res.(*object.List); ok && c16NestedNew[name] {
+			for _, it := range l.Value() {
+				known := false
+				for _, o := range w.objs {
+					if o == it {
+						known = true
+					}
+				}
+				if it != nil && c16_isContainer(it) && !known {
+					w.objs = append(w.objs, it)
+				}
 			}
 		}
 		w.objs = append(w.objs, res)
@@ -383,6 +411,21 @@ func (w *c16World) execAPI(o c16Op) (out string) {
 	// byte slices
 	case "bclone":
 		res = a[0].(*object.ByteSlice).Clone()
+	// builtins that must leave their operand untouched
+	case "xsorted":
+		res = builtins.Sorted(ctx, a[0])
+	case "xreversed":
+		res = builtins.Reversed(ctx, a[0])
+	case "tolist":
+		res = builtins.List(ctx, a[0])
+	case "toset":
+		res = builtins.Set(ctx, a[0])
+	case "keysof":
+		res = builtins.Keys(ctx, a[0])
+	case "mitems":
+		res, msg = c16_call(ctx, a[0], "items")
+	case "lchunk":
+		res = builtins.Chunk(ctx, a[0], a[1])
 	default:
 		msg = "other: unknown op " + o.name
 	}
@@ -490,6 +533,34 @@ func c16Source(o c16Op) string {
 		return h + ".intersection(p1)"
 	case "bclone":
 		return h + ".clone()"
+	case "sortedby":
+		body := map[string]string{"lt": "a < b", "gt": "a > b", "le": "a <= b", "ge": "a >= b", "always": "true", "never": "false"}[o.args[1]]
+		if o.args[2] == "_" {
+			return "sorted(" + h + ", func(a, b) { return " + body + " })"
+		}
+		// call number K (0-based) of the comparison function raises
+		return "c16n := [0]\nsorted(" + h + ", func(a, b) {\n  if c16n[0] == " + o.args[2] + " {\n    error(\"type error: comparison function failed\")\n  }\n  c16n[0] += 1\n  return " + body + "\n})"
+	case "xsorted":
+		return "sorted(" + h + ")"
+	case "xreversed":
+		return "reversed(" + h + ")"
+	case "tolist":
+		return "list(" + h + ")"
+	case "toset":
+		return "set(" + h + ")"
+	case "keysof":
+		return "keys(" + h + ")"
+	case "mitems":
+		return h + ".items()"
+	case "lfilter":
+		body := map[string]string{"ne": "x != p2", "eq": "x == p2", "all": "true", "nothing": "false"}[o.args[1]]
+		return h + ".filter(func(x) { return " + body + " })"
+	case "leach":
+		return h + ".each(func(x) { x })"
+	case "leachacc":
+		return h + ".each(func(x) { p1.append(x) })"
+	case "lchunk":
+		return "chunk(" + h + ", p1)"
 	}
 	return "error(\"unknown op\")"
 }
@@ -508,10 +579,10 @@ func (w *c16World) execScript(o c16Op) (out string) {
 		if t == "_" {
 			continue
 		}
-		if o.name == "lmap" && i == 1 {
+		if c16SymbolArgs[o.name][i] {
 			continue
 		}
-		if o.name == "lmapacc" && i == 1 {
+		if c16HandleArg1[o.name] && i == 1 {
 			k, _ := strconv.Atoi(t)
 			globals["p1"] = w.objs[k]
 			continue
@@ -546,6 +617,13 @@ type c16Gen struct {
 	nBound int          // boundary / negative indices used
 	nMut   int
 	e      *Env
+	probe  *c16Probe // a builtin just returned a new container: mutate result and operand next
+}
+
+// an operand and the container a builtin made from it, both kept live: the next steps mutate
+// the result, then the operand (every live object is compared after every step)
+type c16Probe struct {
+	operand, result, stage int
 }
 
 func (g *c16Gen) val() string {
@@ -675,6 +753,169 @@ func c16_regularForSort(l *object.List) bool {
 	return true
 }
 
+func c16_regularItems(items []object.Object) bool {
+	return c16_regularForSort(object.NewList(items))
+}
+
+// the items sorted() sorts for operand o
+func c16_sortItems(o object.Object) []object.Object {
+	switch v := o.(type) {
+	case *object.List:
+		return v.Value()
+	case *object.Map:
+		return v.Keys().Value()
+	case *object.Set:
+		return v.List().Value()
+	case *object.ByteSlice:
+		return v.Integers()
+	}
+	return nil
+}
+
+// mutate: one mutation of container h with atom values (used to probe independence)
+func (g *c16Gen) mutate(h int) (c16Op, bool) {
+	H := strconv.Itoa
+	g.nMut++
+	switch v := g.w.objs[h].(type) {
+	case *object.List:
+		n := v.Size()
+		name := Pick(g.rng, []string{"lset", "lset", "lset", "lappend", "lappend", "lpop", "lreverse", "linsert", "lsort", "ldel"})
+		if n == 0 {
+			name = "lappend"
+		}
+		if name == "lsort" && n > 20 && !c16_regularForSort(v) {
+			name = "lreverse"
+		}
+		switch name {
+		case "lset":
+			return c16Op{name, []string{H(h), c16_iTok(int64(g.rng.Intn(n))), g.val()}}, true
+		case "lappend":
+			return c16Op{name, []string{H(h), g.val()}}, true
+		case "linsert":
+			return c16Op{name, []string{H(h), g.index(n, false), g.val()}}, true
+		case "lpop", "ldel":
+			return c16Op{name, []string{H(h), c16_iTok(int64(g.rng.Intn(n)) - int64(g.rng.Intn(2)*n))}}, true
+		default:
+			return c16Op{name, []string{H(h)}}, true
+		}
+	case *object.Map:
+		if g.rng.Chance(70) {
+			return c16Op{"mset", []string{H(h), c16_sTok(Pick(g.rng, c16Keys)), g.val()}}, true
+		}
+		return c16Op{"mdel", []string{H(h), c16_sTok(Pick(g.rng, c16Keys))}}, true
+	case *object.Set:
+		if g.rng.Chance(70) {
+			return c16Op{"sadd", []string{H(h), g.val()}}, true
+		}
+		return c16Op{"sremove", []string{H(h), g.val()}}, true
+	case *object.ByteSlice:
+		n := len(v.Value())
+		if n == 0 {
+			break
+		}
+		return c16Op{"bset", []string{H(h), c16_iTok(int64(g.rng.Intn(n))), c16_sTok(Pick(g.rng, []string{"z", "Q", "\x00"}))}}, true
+	}
+	g.nMut--
+	return c16Op{}, false
+}
+
+// probeOp: the follow-up of a builtin that returned a new container
+func (g *c16Gen) probeOp() (c16Op, bool) {
+	p := g.probe
+	if p == nil || p.result >= len(g.w.objs) || p.operand >= len(g.w.objs) {
+		g.probe = nil
+		return c16Op{}, false
+	}
+	target := p.result
+	if p.stage == 1 {
+		target = p.operand
+	}
+	p.stage++
+	if p.stage >= 2 {
+		g.probe = nil
+	}
+	o, ok := g.mutate(target)
+	if ok {
+		g.e.R.H("independence_probe", []string{"mutate-result", "mutate-operand"}[p.stage-1])
+	}
+	return o, ok
+}
+
+// comparison function + raising call number for sorted(x, f) over these items
+func (g *c16Gen) cmpArgs(items []object.Object) (fn, k string, ok bool) {
+	n := len(items)
+	if n > 20 {
+		// beyond 20 items sort.SliceStable merges blocks: only consistent strict orders on
+		// mutually comparable items have an algorithm-independent result
+		if !c16_regularItems(items) {
+			return "", "", false
+		}
+		return Pick(g.rng, []string{"lt", "gt"}), "_", true
+	}
+	fn = Pick(g.rng, []string{"lt", "lt", "lt", "lt", "gt", "gt", "le", "ge", "always", "never"})
+	k = "_"
+	if g.rng.Chance(30) {
+		k = strconv.Itoa(g.rng.Intn(n + 3)) // sometimes beyond the number of calls made
+	}
+	return fn, k, true
+}
+
+// builtinOp: an operation of the class "takes a container, must leave it untouched, returns
+// an independent container" on operand r
+func (g *c16Gen) builtinOp(r int) (c16Op, bool) {
+	H := strconv.Itoa
+	o := g.w.objs[r]
+	var menu []c16_wop
+	switch o.(type) {
+	case *object.List:
+		menu = []c16_wop{{12, "sortedby"}, {3, "xsorted"}, {3, "xreversed"}, {3, "tolist"}, {2, "toset"}, {1, "keysof"}, {3, "lfilter"}, {1, "leach"}, {2, "leachacc"}, {3, "lchunk"}}
+	case *object.Map:
+		menu = []c16_wop{{6, "sortedby"}, {2, "xsorted"}, {2, "tolist"}, {2, "toset"}, {2, "keysof"}, {3, "mitems"}}
+	case *object.Set:
+		menu = []c16_wop{{6, "sortedby"}, {2, "xsorted"}, {3, "tolist"}, {2, "toset"}, {2, "keysof"}}
+	case *object.ByteSlice:
+		menu = []c16_wop{{5, "sortedby"}, {2, "xsorted"}, {3, "xreversed"}}
+	default:
+		return c16Op{}, false
+	}
+	name := c16_pickW(g.rng, menu)
+	g.e.R.H("builtin_operand", name+"/"+string(o.Type()))
+	switch name {
+	case "sortedby":
+		fn, k, ok := g.cmpArgs(c16_sortItems(o))
+		if !ok {
+			return c16Op{}, false
+		}
+		cls := fn
+		if k != "_" {
+			cls += "+raises-at-k"
+		}
+		g.e.R.H("sorted_cmp_fn", cls)
+		return c16Op{name, []string{H(r), fn, k}}, true
+	case "xsorted":
+		if items := c16_sortItems(o); len(items) > 20 && !c16_regularItems(items) {
+			return c16Op{}, false
+		}
+		return c16Op{name, []string{H(r)}}, true
+	case "lfilter":
+		return c16Op{name, []string{H(r), Pick(g.rng, []string{"ne", "ne", "ne", "eq", "eq", "all", "nothing"}), g.atomSameKind(o.(*object.List))}}, true
+	case "leachacc":
+		acc := Pick(g.rng, g.handles(c16_isList))
+		if g.rng.Chance(30) || (g.leaf[acc] && c16_containsContainer(o)) {
+			acc = r // the list appends to itself while it is iterated
+		}
+		g.nMut++
+		return c16Op{name, []string{H(r), H(acc)}}, true
+	case "lchunk":
+		n := "i" + strconv.Itoa(1+g.rng.Intn(4))
+		if g.rng.Chance(25) {
+			n = Pick(g.rng, []string{"i0", "i-1", "i7", "i9223372036854775807", "i-9223372036854775808", "n", c16_sTok("a")})
+		}
+		return c16Op{name, []string{H(r), n}}, true
+	}
+	return c16Op{name, []string{H(r)}}, true
+}
+
 type c16_wop struct {
 	w    int
 	name string
@@ -708,6 +949,20 @@ func c16_pickW(r *RNG, ops []c16_wop) string {
 func (g *c16Gen) next(allowDefects bool, curStr *string) (c16Op, bool) {
 	objs := g.w.objs
 	kind := g.kind
+	if g.probe != nil {
+		if g.rng.Chance(80) {
+			if o, ok := g.probeOp(); ok {
+				return o, true
+			}
+		} else {
+			g.probe = nil
+		}
+	}
+	builtinChance := 10
+	if kind == "builtins" {
+		builtinChance = 45
+		kind = "mixed"
+	}
 	if kind == "mixed" {
 		kind = Pick(g.rng, []string{"list", "list", "map", "set", "bytes"})
 	}
@@ -728,6 +983,11 @@ func (g *c16Gen) next(allowDefects bool, curStr *string) (c16Op, bool) {
 		r, ok := pickH(c16_isList)
 		if !ok {
 			return c16Op{}, false
+		}
+		if g.rng.Chance(builtinChance) {
+			if o, ok := g.builtinOp(r); ok {
+				return o, true
+			}
 		}
 		l := objs[r].(*object.List)
 		n := l.Size()
@@ -813,6 +1073,11 @@ func (g *c16Gen) next(allowDefects bool, curStr *string) (c16Op, bool) {
 		if !ok {
 			return c16Op{}, false
 		}
+		if g.rng.Chance(builtinChance) {
+			if o, ok := g.builtinOp(r); ok {
+				return o, true
+			}
+		}
 		key := func() string {
 			if g.rng.Chance(5) {
 				return Pick(g.rng, []string{"i1", "n", "t"})
@@ -867,6 +1132,11 @@ func (g *c16Gen) next(allowDefects bool, curStr *string) (c16Op, bool) {
 		if !ok {
 			return c16Op{}, false
 		}
+		if g.rng.Chance(builtinChance) {
+			if o, ok := g.builtinOp(r); ok {
+				return o, true
+			}
+		}
 		name := c16_pickW(g.rng, c16SetOps)
 		switch name {
 		case "sadd", "sremove", "scontains", "sget", "sdel":
@@ -897,6 +1167,11 @@ func (g *c16Gen) next(allowDefects bool, curStr *string) (c16Op, bool) {
 		r, ok := pickH(c16_isBytes)
 		if !ok {
 			return c16Op{}, false
+		}
+		if g.rng.Chance(builtinChance) {
+			if o, ok := g.builtinOp(r); ok {
+				return o, true
+			}
 		}
 		n := len(objs[r].(*object.ByteSlice).Value())
 		name := c16_pickW(g.rng, c16BytesOps)
@@ -1178,6 +1453,7 @@ func c16RunCase(e *Env, rng *RNG, kind, mode string, maxLen int, allowDefects bo
 			}
 		}
 		var res string
+		nBefore := len(w.objs)
 		useScript := mode == "script" || c16ScriptOnly[o.name] || (mode == "both" && rng.Bool())
 		if useScript {
 			res = w.execScript(o)
@@ -1185,6 +1461,18 @@ func c16RunCase(e *Env, rng *RNG, kind, mode string, maxLen int, allowDefects bo
 		} else {
 			res = w.execAPI(o)
 			e.R.H("exec", "api")
+		}
+		if fixed == nil {
+			nObj := len(w.objs)
+			if c16NestedNew[o.name] {
+				for q := nBefore; q < nObj-1; q++ {
+					g.leaf[q] = true // the nested new lists sit inside the result
+				}
+			}
+			if res == "new" && c16ProducesNew[o.name] && o.args[0][0] >= '0' && o.args[0][0] <= '9' {
+				operand, _ := strconv.Atoi(o.args[0])
+				g.probe = &c16Probe{operand: operand, result: nObj - 1}
+			}
 		}
 		c.ops = append(c.ops, o)
 		c.goRes = append(c.goRes, res)
@@ -1202,12 +1490,15 @@ func c16RunCase(e *Env, rng *RNG, kind, mode string, maxLen int, allowDefects bo
 				curStr = string(b)
 			}
 		}
-		if len(w.objs) > 14 {
+		if len(w.objs) > 14 && (kind != "builtins" || len(w.objs) > 22) {
 			break
 		}
 	}
 	e.R.H("container", kind)
 	e.R.H("seq_len", fmt.Sprintf("%02d-%02d", len(c.ops)/10*10, len(c.ops)/10*10+9))
+	if kind == "builtins" {
+		e.R.H("seq_len_builtins", fmt.Sprintf("%02d-%02d", len(c.ops)/10*10, len(c.ops)/10*10+9))
+	}
 	c.nontriv = len(c.ops) >= 3 && (g.nMut >= 1 || kind == "string") && g.nBound >= 1
 	ops := make([]string, len(c.ops))
 	for i, o := range c.ops {
@@ -1228,7 +1519,9 @@ func c16_parseOps(s string) []c16Op {
 
 func c16_runC16(e *Env) {
 	e.R.Rule = "a case = initial containers + an operation sequence (length <= 40) over one container type (list, map, set, byte_slice, string) " +
-		"or a mix with nested references, run on the real objects through the object API or through single-statement scripts on the real VM; " +
+		"or a mix with nested references (kind `builtins`: a mix in which ~45% of the steps are builtins that must leave their operand untouched and return an independent container " +
+		"-- sorted(x) / sorted(x, f) with f in {<, >, <=, >=, true, false} optionally raising at call k, reversed, list(), set(), keys(), items(), filter, each, chunk -- on list/map/set/byte_slice operands, " +
+		"each followed by a mutation of the result and then of the operand), run on the real objects through the object API or through single-statement scripts on the real VM; " +
 		"indices drawn from [-len-2, len+2] plus extremes and wrongly typed ones; values from a C15-style pool without floats; after EVERY step " +
 		"the result and the content of EVERY live container are compared with the Lean Impl model and the Lean Spec. " +
 		"non-trivial: length >= 3 with >= 1 mutation and >= 1 boundary/negative/out-of-range index; distinct by (mode, initial objects, op list)"
@@ -1251,6 +1544,16 @@ func c16_runC16(e *Env) {
 		{"set", "S:i1,i2,s61;S:i2,t", "sunion,0,r1;sinter,0,r1;sadd,0,i9;sremove,1,i2;sdel,2,t"},
 		{"list", "L:i1,i2", "lget,0,i2;lget,0,i-3;lget,0,s61;lslice,0,i2,_;lslice,0,_,i3;lpop,0,i2;linsert,0,i-9,i0;linsert,0,i99,i5;ldel,0,i-5"},
 		{"list", "L:i1,s61,i0", "lsort,0;lget,0,i0"},
+		// builtins that must leave their operand untouched and return an independent container
+		{"list", "L:i3,i1,i2", "sortedby,0,lt,_;lget,0,i0;lset,1,i0,i100;lget,0,i0;lappend,0,i7;llen,1;sortedby,0,gt,_;lreverse,2;lget,0,i0"},
+		{"list", "L:i3,i1,i2,i0", "sortedby,0,lt,1;lget,0,i0;sortedby,0,lt,0;sortedby,0,lt,5;sortedby,0,lt,99;lget,0,i-1"},
+		{"list", "L:i3,i1,s61,i0", "sortedby,0,lt,_;lget,0,i0;sortedby,0,always,_;sortedby,0,never,_;sortedby,0,le,_;sortedby,0,ge,_;xsorted,0"},
+		{"list", "L:i2,i1,i2,i1;L:", "sortedby,0,le,_;sortedby,0,ge,_;sortedby,0,always,2;lfilter,0,ne,i1;lfilter,0,eq,i1;leachacc,0,1;leachacc,0,0;leach,0;tolist,0;toset,0;keysof,0;xreversed,0;lset,0,i0,i9"},
+		{"map", "M:62=i1,61=i2,63=i0", "sortedby,0,gt,_;xsorted,0;tolist,0;toset,0;keysof,0;mitems,0;lset,1,i0,s7a;lappend,6,i5;lset,9,i0,i7;mset,0,s61,i9;mdel,0,s62;sadd,4,i1"},
+		{"set", "S:i3,i1,i2", "sortedby,0,gt,_;sortedby,0,lt,1;xsorted,0;tolist,0;toset,0;keysof,0;sadd,0,i9;lappend,2,i5;sremove,4,i1;lset,1,i0,i7"},
+		{"set", "S:i3,i1,s61", "sortedby,0,gt,_;xsorted,0;sortedby,0,always,_;tolist,0;sadd,0,i9;lpop,1,i0"},
+		{"bytes", "B:030102", "sortedby,0,lt,_;xsorted,0;xreversed,0;bset,3,i0,s7a;bset,0,i1,s51;lset,1,i0,i9;sortedby,0,gt,1"},
+		{"list", "L:i1,i2,i3,i4,i5;L:i9", "lappend,0,r1;lchunk,0,i2;lset,2,i0,i8;lget,0,i0;lappend,0,i6;lpop,5,i0;lchunk,0,i0;lchunk,0,i9223372036854775807;lchunk,0,n;lappend,1,i7"},
 	}
 	var cases []*c16Case
 	flush := func() {
@@ -1274,7 +1577,7 @@ func c16_runC16(e *Env) {
 		}
 	}
 	flush()
-	kinds := []string{"list", "list", "list", "map", "map", "set", "bytes", "string", "mixed", "mixed"}
+	kinds := []string{"list", "list", "list", "map", "map", "set", "bytes", "string", "mixed", "mixed", "builtins", "builtins", "builtins"}
 	for i := 0; i < nSeq; i++ {
 		rng := e.Rng.Fork()
 		kind := kinds[i%len(kinds)]
